@@ -29,8 +29,14 @@ ARROW = "application/vnd.apache.arrow.stream"
 ID_HEADER = "X-Verif-Id"
 
 
+METHODS = ["run", "healthcheck", "health_report", "healthz"]  # names that merely START like the exempt `/health` endpoint
+
+
 class StickyProto(Protocol):
     def run(self, script: str) -> str: ...
+    def healthcheck(self, script: str) -> str: ...
+    def health_report(self, script: str) -> str: ...
+    def healthz(self, script: str) -> str: ...
 
 
 class SessState:
@@ -51,6 +57,8 @@ def classify_exc(e: BaseException) -> str:
         return "notOptedIn"
     if n == "RuntimeError" and "already active" in m:
         return "alreadyActive"
+    if n == "RuntimeError" and "not available" in m:
+        return "notAvailable"
     if n == "ServerDrainingError":
         return "draining"
     if n in ("error", "OverflowError", "ValueError"):  # struct.error / int(inf) / server_id too long
@@ -61,15 +69,48 @@ def classify_exc(e: BaseException) -> str:
 class Impl:
     def __init__(self, closed: list[int]) -> None:
         self.closed = closed
-        self.calls: list[dict[str, Any]] = []  # one record per dispatch of `run`
+        self.calls: list[dict[str, Any]] = []  # one record per dispatch of a method
+        self.registry: Any = None               # set by Worker: the environment actions act on it
+        self.pending: list[Any] = []            # environment threads still waiting for an entry lock
 
-    def run(self, script: str, ctx: CallContext) -> str:
+    def _environment(self, fn: Any, done: Any) -> None:
+        """Something ends sessions WHILE the method runs, from another thread (reaper tick / DrainHandle.shutdown()).
+        The sweep pops its victims under the registry lock at once; the close hook of a session this request holds
+        waits for the entry lock, i.e. until process_response.  Wait only for the pop."""
+        import threading
+        import time as _t
+
+        th = threading.Thread(target=fn, daemon=True)
+        th.start()
+        self.pending.append(th)
+        t0 = _t.monotonic()
+        while not done() and th.is_alive() and _t.monotonic() - t0 < 5:
+            _t.sleep(0.0005)
+
+    def healthcheck(self, script: str, ctx: CallContext) -> str:
+        return self.run(script, ctx, "healthcheck")
+
+    def health_report(self, script: str, ctx: CallContext) -> str:
+        return self.run(script, ctx, "health_report")
+
+    def healthz(self, script: str, ctx: CallContext) -> str:
+        return self.run(script, ctx, "healthz")
+
+    def run(self, script: str, ctx: CallContext, name: str = "run") -> str:
         spec = json.loads(script)
         log: list[Any] = []
-        self.calls.append({"log": log})
+        self.calls.append({"log": log, "method": name})
         for a in spec["actions"]:
             try:
-                if a == "c":
+                if a == "S":
+                    reg = self.registry
+                    self._environment(reg.shutdown, lambda: len(reg._entries) == 0)
+                    log.append("e")
+                elif isinstance(a, list) and a[0] == "R":
+                    reg, at = self.registry, float(a[1])
+                    self._environment(lambda: reg.drain_expired(now=at), lambda: not any(e.expires_at < at for e in list(reg._entries.values())))
+                    log.append("e")
+                elif a == "c":
                     ctx.close_session()
                     log.append("c")
                 elif a == "u":
@@ -192,8 +233,9 @@ class RecordingClient(_SyncTestClient):
 
 
 class Worker:
-    def __init__(self, idx: int, server_id: str, key_id: int, key: bytes, default_ttl: int, closed: list[int]) -> None:
+    def __init__(self, idx: int, server_id: str, key_id: int, key: bytes, default_ttl: int, closed: list[int], prefix: str = "") -> None:
         self.idx = idx
+        self.prefix = prefix
         self.server_id = server_id
         self.key_id = key_id
         self.key = key
@@ -201,15 +243,23 @@ class Worker:
         self.impl = Impl(closed)
         self.server = RpcServer(StickyProto, self.impl, server_id=server_id)
         self.app = make_wsgi_app(self.server, enable_sticky=True, token_key=key, authenticate=_authenticate,
-                                 sticky_default_ttl=float(default_ttl))
+                                 sticky_default_ttl=float(default_ttl), prefix=prefix)
         self.tc = falcon.testing.TestClient(self.app)
         self.mw = next(m.__self__ for g in self.app._middleware for m in g
                        if isinstance(getattr(m, "__self__", None), st._StickyMiddleware))
         self.registry: Any = self.mw._registry
+        self.impl.registry = self.registry
         self.schema = self.server._methods["run"].params_schema
 
-    def body(self, actions: list[Any], swallow: bool) -> bytes:
-        return rpcutil.request_bytes("run", self.schema, {"script": json.dumps({"actions": actions, "swallow": swallow})})
+    def body(self, actions: list[Any], swallow: bool, method: str = "run") -> bytes:
+        return rpcutil.request_bytes(method, self.server._methods[method].params_schema,
+                                     {"script": json.dumps({"actions": actions, "swallow": swallow})})
+
+    def settle(self) -> None:
+        """Let the environment threads of the last request finish (their close hooks run once the entry lock is free)."""
+        for th in self.impl.pending:
+            th.join(5)
+        self.impl.pending.clear()
 
     def snapshot(self) -> list[dict[str, Any]]:
         out = []
@@ -243,6 +293,8 @@ def parse_post(status: int, headers: dict[str, str], content: bytes) -> dict[str
             cls = "notOptedIn"
         elif err.get("type") == "RuntimeError" and "already active" in err.get("message", ""):
             cls = "alreadyActive"
+        elif err.get("type") == "RuntimeError" and "not available" in err.get("message", ""):
+            cls = "notAvailable"
         elif err.get("type") == "ServerDrainingError":
             cls = "draining"
         elif err.get("type") in ("error", "OverflowError", "ValueError"):
@@ -263,7 +315,8 @@ class Farm:
         self.closed: list[int] = []
         self.keys = keys
         self.idents = idents
-        self.workers = [Worker(i, c["server_id"], c["key"], keys[c["key"]], c["default_ttl"], self.closed) for i, c in enumerate(cfgs)]
+        self.workers = [Worker(i, c["server_id"], c["key"], keys[c["key"]], c["default_ttl"], self.closed, c.get("prefix", ""))
+                        for i, c in enumerate(cfgs)]
         self.owner: dict[str, int] = {}  # ghost: sid hex -> client that opened it
         self._sym: dict[str, Any] = {}
         self._aads = []
@@ -313,13 +366,14 @@ class Farm:
         self._sym[wire] = r
         return r
 
-    def model_req(self, ident: Any, accept: str | None, wire: str | None, client: int) -> dict[str, Any]:
+    def model_req(self, ident: Any, accept: str | None, wire: str | None, client: int, method: str = "run") -> dict[str, Any]:
         eff = wire.strip() if wire is not None else None
         return {"ident": model_ident(ident), "accept": [ord(c) for c in accept] if accept is not None else None,
-                "session": self.sym(eff) if eff else None, "client": client}
+                "session": self.sym(eff) if eff else None, "client": client, "path": [ord(c) for c in "/" + method]}
 
     # ---------------------------------------------------------------- real operations
-    def post(self, wk: int, ident: Any, accept: str | None, wire: str | None, actions: list[Any], swallow: bool, client: int = 0) -> dict[str, Any]:
+    def post(self, wk: int, ident: Any, accept: str | None, wire: str | None, actions: list[Any], swallow: bool, client: int = 0,
+             method: str = "run") -> dict[str, Any]:
         w = self.workers[wk]
         before = set(w.registry._entries)
         n_calls = len(w.impl.calls)
@@ -329,7 +383,8 @@ class Farm:
             headers["VGI-Session-Accept"] = accept
         if wire is not None:
             headers["VGI-Session"] = wire
-        r = w.tc.simulate_post("/run", body=w.body(actions, swallow), headers=headers)
+        r = w.tc.simulate_post(f"{w.prefix}/{method}", body=w.body(actions, swallow, method), headers=headers)
+        w.settle()
         obs = parse_post(r.status_code, dict(r.headers), r.content)
         new_calls = w.impl.calls[n_calls:]
         obs["dispatched"] = len(new_calls)
@@ -345,7 +400,7 @@ class Farm:
         headers = dict(ident_header(ident))
         if wire is not None:
             headers["VGI-Session"] = wire
-        r = w.tc.simulate_delete("/__session__", headers=headers)
+        r = w.tc.simulate_delete(f"{w.prefix}/__session__", headers=headers)
         h = {k.lower(): v for k, v in dict(r.headers).items() if k.lower() != "x-request-id"}
         return {"status": r.status_code, "close": (h.get("vgi-session-close") or "").strip().lower() == "true",
                 "headers": sorted(h.items()), "body": r.content.hex(), "closed_states": self.closed[n_closed:]}
@@ -370,6 +425,8 @@ class Farm:
 def model_action(a: Any) -> Any:
     if isinstance(a, str):
         return a
+    if a[0] == "R":
+        return {"R": a[1]}
     return {"o": a[1], "ttl": a[2]}
 
 
@@ -379,6 +436,8 @@ def canon_model_log(log: list[Any]) -> list[Any]:
     for x in log:
         if x == "noop":
             out.append("n")
+        elif x == "env":
+            out.append("e")
         elif "opened" in x:
             out.append(["o", x["opened"]])
         elif "closed" in x:
